@@ -18,7 +18,7 @@ PROPERTY = "C07"
 RULE = (
     "complete product: {ISV, JFA} x 3 UBMs x 4 subspace sets (entries from {-1,0,1/2,2}, ranks 1-2, D of order 1 so that the "
     "z coupling is visible, and D = 1e-10) x 6 statistics lists (1-3 sessions, fractional counts, a zero-count component, "
-    "repeated session) ; per case enroll_iterations in {1,2,3,4,5,6,50,200}. Non-trivial: the second sweep moves the "
+    "repeated session) ; per case enroll_iterations in {1,2,3,4,5,6,50,200}, then three histories on the same machine object (U/V replaced through the setters; machine trained by fit; UBM means and variances reassigned in place) each followed by enrolment with 1-3 iterations. Non-trivial: the second sweep moves the "
     "factors by > 1e-9 (the blocks are coupled); distinct = distinct case"
 )
 ASSUMPTIONS = ["subspaces are configured through the public setters", "float64 linear algebra of the reference (condition numbers of P are below 1e8 on this alphabet; checked)"]
@@ -168,6 +168,33 @@ def run_case(case):
                 c.close(z, z_ref, "after_training", f"residual offset after {k} iterations once the machine was trained (fit) after earlier enrolments", tags, rtol=1e-6, scale=sc3, kappa=1e5)
                 if case["kind"] == "jfa":
                     c.close(np.asarray(out[0], float), y_ref, "after_training", f"speaker factors after {k} iterations once the machine was trained after earlier enrolments", tags, rtol=1e-6, scale=sc3, kappa=1e5)
+    # history: the UBM held by the machine gets new means and variances *in place* (same GMMMachine object, public setters)
+    # after the machine has enrolled clients; enrolment must follow the UBM's current means and covariances
+    if not c.viol:
+        g = m.ubm
+        mu_old, var_old = np.array(g.means, float), np.array(g.variances, float)
+        mu_new = mu_old + (np.arange(mu_old.size).reshape(mu_old.shape) % 3 - 0.75) * 0.5 * abs(s)
+        var_new = var_old * (1.0 + 0.5 * ((np.arange(var_old.size).reshape(var_old.shape) % 2) * 2 - 0.5))
+        g.means = mu_new.copy()
+        g.variances = var_new.copy()
+        c.check(np.array_equal(np.asarray(g.variances), var_new), "wrap", "variances above the floors must be taken as given", tags)
+        V4 = np.asarray(m.V, float) if case["kind"] == "jfa" else None
+        J4 = ofa.Joint(mu_new, var_new, np.asarray(m.U, float), V4, np.asarray(m.D, float), [(np.asarray(st.n, float), np.asarray(st.sum_px, float)) for st in sts])
+        if np.all(np.isfinite(J4.P)) and np.linalg.cond(J4.P) < 1e10:
+            th = np.zeros(J4.dim)
+            sc4 = float(np.abs(J4.mode()).max()) + 1.0
+            for k in (1, 2, 3):
+                th = J4.sweep(th)
+                m.enroll_iterations = k
+                out = m.enroll(copy.deepcopy(sts))
+                c.transitions += 1
+                y_ref, z_ref = J4.split(th)
+                z = np.asarray(out[1] if case["kind"] == "jfa" else out, float)
+                z = z[0] if z.ndim == 2 else z
+                c.close(z, z_ref, "after_ubm_update", f"residual offset after {k} iterations once the UBM's means and variances were reassigned in place", tags, rtol=1e-6, scale=sc4, kappa=1e5)
+                if case["kind"] == "jfa":
+                    c.close(np.asarray(out[0], float), y_ref, "after_ubm_update", f"speaker factors after {k} iterations once the UBM's means and variances were reassigned in place", tags, rtol=1e-6, scale=sc4, kappa=1e5)
+            c.count("ubm_update_histories")
     c.traces = c.transitions
     sig = "%s|%d|%d|%d" % (case["kind"], case["ubm"], case["sub"], case["sl"])
     return c.result(nontrivial=moved, sig=sig)
